@@ -458,6 +458,101 @@ theorem makePermanent_no_panic (h : Heap) (hi : Inv h) (p : Handle) (hp : Handle
       | dead => rfl
       | temp s m => simp [hi.tempComplete id s m hsl]
 
+/-! ## Ordering of handles (`Ord for PStr`): ordered collections (`BTreeSet<PStr>` of string literals,
+sorted diagnostics) identify exactly the handles that are equal. -/
+
+theorem bytesLt_irrefl (s : Bytes) : bytesLt s s = false := by
+  induction s with
+  | nil => rfl
+  | cons a as ih => simp [bytesLt, ih]
+
+theorem bytesLt_total (s t : Bytes) (h : s ≠ t) : bytesLt s t = true ∨ bytesLt t s = true := by
+  induction s generalizing t with
+  | nil => cases t with
+    | nil => exact absurd rfl h
+    | cons b bs => left; rfl
+  | cons a as ih => cases t with
+    | nil => right; rfl
+    | cons b bs =>
+      simp only [bytesLt, Bool.or_eq_true, decide_eq_true_eq, Bool.and_eq_true, beq_iff_eq]
+      rcases Nat.lt_trichotomy a.toNat b.toNat with hlt | heq | hgt
+      · left; left; exact UInt8.lt_iff_toNat_lt.mpr hlt
+      · have hab : a = b := UInt8.toNat_inj.mp heq
+        subst hab
+        have hne : as ≠ bs := fun e => h (by rw [e])
+        rcases ih bs hne with h1 | h1
+        · left; right; exact ⟨rfl, h1⟩
+        · right; right; exact ⟨rfl, h1⟩
+      · right; left; exact UInt8.lt_iff_toNat_lt.mpr hgt
+
+theorem bytesLt_asymm (s t : Bytes) (h : bytesLt s t = true) : bytesLt t s = false := by
+  induction s generalizing t with
+  | nil => cases t <;> simp_all [bytesLt]
+  | cons a as ih => cases t with
+    | nil => simp [bytesLt] at h
+    | cons b bs =>
+      simp only [bytesLt, Bool.or_eq_true, decide_eq_true_eq, Bool.and_eq_true, beq_iff_eq] at h
+      simp only [bytesLt, Bool.or_eq_false_iff, decide_eq_false_iff_not, Bool.and_eq_false_iff, beq_eq_false_iff_ne]
+      rcases h with hlt | ⟨hab, hrest⟩
+      · have h1 : a.toNat < b.toNat := UInt8.lt_iff_toNat_lt.mp hlt
+        refine ⟨fun hc => ?_, Or.inl (fun e => ?_)⟩
+        · have := UInt8.lt_iff_toNat_lt.mp hc; omega
+        · subst e; omega
+      · subst hab
+        exact ⟨fun hc => by have := UInt8.lt_iff_toNat_lt.mp hc; omega, Or.inr (ih bs hrest)⟩
+
+/-- `cmp` answers `Equal` exactly for equal handles: an ordered set keyed by handles never
+conflates two different strings and never splits one (this is what `Ord` must add to `Eq`). -/
+theorem cmpHandle_eq_zero_iff (a b : Handle) : cmpHandle a b = 0 ↔ a = b := by
+  cases a <;> cases b <;> simp only [cmpHandle]
+  · rename_i s1 s2
+    by_cases h : s1 = s2
+    · simp [h]
+    · simp only [h, if_false]; constructor
+      · intro hc; split at hc <;> omega
+      · intro hc; cases hc; exact absurd rfl h
+  · constructor <;> intro h <;> first | omega | cases h
+  · constructor <;> intro h <;> first | omega | cases h
+  · rename_i i j
+    by_cases h : i = j
+    · simp [h]
+    · simp only [h, if_false]; constructor
+      · intro hc; split at hc <;> omega
+      · intro hc; cases hc; exact absurd rfl h
+
+/-- antisymmetry: swapping the operands negates the answer (a total order, not merely a
+comparison function): sorting by handles is deterministic. -/
+theorem cmpHandle_antisymm (a b : Handle) : cmpHandle b a = - cmpHandle a b := by
+  cases a with
+  | inl s1 =>
+    cases b with
+    | inl s2 =>
+      simp only [cmpHandle]
+      by_cases h : s1 = s2
+      · subst h; simp
+      · have h' : s2 ≠ s1 := fun e => h e.symm
+        simp only [h, h', if_false]
+        rcases bytesLt_total s1 s2 h with h1 | h1
+        · simp [h1, bytesLt_asymm s1 s2 h1]
+        · simp [h1, bytesLt_asymm s2 s1 h1]
+    | ref j => simp [cmpHandle]
+  | ref i =>
+    cases b with
+    | inl s2 => simp [cmpHandle]
+    | ref j =>
+      simp only [cmpHandle]
+      by_cases h : i = j
+      · subst h; simp
+      · have h' : j ≠ i := fun e => h e.symm
+        simp only [h, h', if_false]
+        rcases Nat.lt_or_gt_of_ne h with h1 | h1
+        · have : ¬ j < i := by omega
+          simp [h1, this]
+        · have : ¬ i < j := by omega
+          simp [h1, this]
+
+example : cmpHandle (.inl [97, 98]) (.inl [97, 98, 0]) = -1 := by decide   -- "ab" vs "ab\0": not Equal
+
 /-! ## Non-vacuity: a concrete history meets every hypothesis and exercises promote / mark /
 two-pass reclamation / re-allocation. -/
 
